@@ -71,3 +71,142 @@ Theorem C18_result_eq_distinguishes :
          result_eq a b = false.
 Proof. exact @result_eq_distinguishes. Qed.
 Print Assumptions C18_result_eq_distinguishes.
+
+From V Require Import Base SaveLoad SaveLoadProofs SaveLoadFull SaveLoadUtf8.
+
+(* load (save r) = r for every well-formed result, all nine fields *)
+Theorem C18_load_save_full :
+  forall r : bfs_result, wf_result r -> load (save r) = Ok r.
+Proof. exact @load_save_full. Qed.
+Print Assumptions C18_load_save_full.
+
+(* the file's keys may come in ANY order (h5py lists them alphabetically: layer__10 before layer__2): the loaded result has the same fields, the same layer for every index, is equal to the original both ways *)
+Theorem C18_load_key_order_independent :
+  forall (r : bfs_result) (s' : list (String.string * h5val)),
+         wf_result r ->
+         Permutation.Permutation (save r) s' ->
+         exists r' : bfs_result,
+           load s' = Ok r' /\
+           same_upto_layer_order r' r /\
+           wf_layers r' /\
+           (forall k : nat, layer_get k (r_layers r') = layer_get k (r_layers r)) /\
+           result_eq r' r = true /\ result_eq r r' = true /\ canon r' = canon r.
+Proof. exact @load_key_order_independent. Qed.
+Print Assumptions C18_load_key_order_independent.
+
+(* the number after layer__ is parsed back for EVERY natural number (several digits), by the model's parser and by an independent int()-like parser *)
+Theorem C18_layer_key_parse :
+  forall k : nat,
+         starts_with
+           (String.String (Ascii.Ascii false false true true false true true false)
+              (String.String (Ascii.Ascii true false false false false true true false)
+                 (String.String (Ascii.Ascii true false false true true true true false)
+                    (String.String (Ascii.Ascii true false true false false true true false)
+                       (String.String (Ascii.Ascii false true false false true true true false)
+                          (String.String (Ascii.Ascii true true true true true false true false)
+                             (String.String (Ascii.Ascii true true true true true false true false)
+                                String.EmptyString)))))))
+           (String.append
+              (String.String (Ascii.Ascii false false true true false true true false)
+                 (String.String (Ascii.Ascii true false false false false true true false)
+                    (String.String (Ascii.Ascii true false false true true true true false)
+                       (String.String (Ascii.Ascii true false true false false true true false)
+                          (String.String (Ascii.Ascii false true false false true true true false)
+                             (String.String (Ascii.Ascii true true true true true false true false)
+                                (String.String
+                                   (Ascii.Ascii true true true true true false true false)
+                                   String.EmptyString))))))) (nat_to_string k)) = true /\
+         parse_nat
+           (strip
+              (String.append
+                 (String.String (Ascii.Ascii false false true true false true true false)
+                    (String.String (Ascii.Ascii true false false false false true true false)
+                       (String.String (Ascii.Ascii true false false true true true true false)
+                          (String.String (Ascii.Ascii true false true false false true true false)
+                             (String.String (Ascii.Ascii false true false false true true true false)
+                                (String.String
+                                   (Ascii.Ascii true true true true true false true false)
+                                   (String.String
+                                      (Ascii.Ascii true true true true true false true false)
+                                      String.EmptyString))))))) (nat_to_string k))) = 
+         Some k /\
+         py_int
+           (strip
+              (String.append
+                 (String.String (Ascii.Ascii false false true true false true true false)
+                    (String.String (Ascii.Ascii true false false false false true true false)
+                       (String.String (Ascii.Ascii true false false true true true true false)
+                          (String.String (Ascii.Ascii true false true false false true true false)
+                             (String.String (Ascii.Ascii false true false false true true true false)
+                                (String.String
+                                   (Ascii.Ascii true true true true true false true false)
+                                   (String.String
+                                      (Ascii.Ascii true true true true true false true false)
+                                      String.EmptyString))))))) (nat_to_string k))) = 
+         Some k /\
+         strip
+           (String.append
+              (String.String (Ascii.Ascii false false true true false true true false)
+                 (String.String (Ascii.Ascii true false false false false true true false)
+                    (String.String (Ascii.Ascii true false false true true true true false)
+                       (String.String (Ascii.Ascii true false true false false true true false)
+                          (String.String (Ascii.Ascii false true false false true true true false)
+                             (String.String (Ascii.Ascii true true true true true false true false)
+                                (String.String
+                                   (Ascii.Ascii true true true true true false true false)
+                                   String.EmptyString))))))) (nat_to_string k)) = 
+         nat_to_string k.
+Proof. exact @layer_key_parse. Qed.
+Print Assumptions C18_layer_key_parse.
+
+(* different well-formed results give different files *)
+Theorem C18_save_injective :
+  forall r1 r2 : bfs_result, wf_result r1 -> wf_result r2 -> save r1 = save r2 -> r1 = r2.
+Proof. exact @save_injective. Qed.
+Print Assumptions C18_save_injective.
+
+(* __eq__ holds exactly when all fields are equal (stored layers compared index by index) *)
+Theorem C18_result_eq_iff :
+  forall a b : bfs_result,
+         wf_layers a -> wf_layers b -> result_eq a b = true <-> fields_equal a b.
+Proof. exact @result_eq_iff. Qed.
+Print Assumptions C18_result_eq_iff.
+
+(* __eq__ is symmetric on well-formed results *)
+Theorem C18_result_eq_sym :
+  forall a b : bfs_result, wf_layers a -> wf_layers b -> result_eq a b = result_eq b a.
+Proof. exact @result_eq_sym. Qed.
+Print Assumptions C18_result_eq_sym.
+
+(* and transitive *)
+Theorem C18_result_eq_trans :
+  forall a b c : bfs_result,
+         result_eq a b = true -> result_eq b c = true -> result_eq a c = true.
+Proof. exact @result_eq_trans. Qed.
+Print Assumptions C18_result_eq_trans.
+
+(* a layer stored on one side only makes the results unequal, both ways *)
+Theorem C18_result_eq_layer_one_sided :
+  forall (a b : bfs_result) (k : nat) (l : list (list BinNums.Z)),
+         layer_get k (r_layers a) = Some l ->
+         layer_get k (r_layers b) = None -> result_eq a b = false /\ result_eq b a = false.
+Proof. exact @result_eq_layer_one_sided. Qed.
+Print Assumptions C18_result_eq_layer_one_sided.
+
+(* an edge list on one side only makes the results unequal, both ways *)
+Theorem C18_result_eq_edges_one_sided :
+  forall (a b : bfs_result) (e : list (list BinNums.Z)),
+         r_edges a = Some e -> r_edges b = None -> result_eq a b = false /\ result_eq b a = false.
+Proof. exact @result_eq_edges_one_sided. Qed.
+Print Assumptions C18_result_eq_edges_one_sided.
+
+(* generator names (any Unicode text without U+0000, UTF-8 of any length) round-trip without truncation through the variable-length string storage *)
+Theorem C18_names_unicode_roundtrip :
+  forall names : list pystr,
+         List.Forall py_valid names ->
+         List.Forall (fun s : list BinNums.Z => ~ List.In BinNums.Z0 s) names ->
+         exists cells : list String.string,
+           py_store_names pystr utf8_encode String.string cstr_write names = Ok cells /\
+           py_fetch_names pystr utf8_decode String.string cstr_read cells = Some names.
+Proof. exact @names_unicode_roundtrip. Qed.
+Print Assumptions C18_names_unicode_roundtrip.
